@@ -83,6 +83,11 @@ Step ==
                  /\ UNCHANGED <<disarmed, armCall, armRet, armInflight, delCall, broke, skip, nbad>>
        [] ev.k = "CbEnd" -> running' = [running EXCEPT ![ev.e] = FALSE]
                             /\ UNCHANGED <<disarmed, pend, armCall, armRet, armInflight, delCall, broke, skip, nbad>>
+       [] ev.k = "Quiet" ->
+            \* the workers are done and nothing has poked the loop since: whatever is still armed was lost
+            IF ~broke /\ (\E e \in Ev : pend[e])
+            THEN Bad("armed-event-not-acted-on-without-another-wakeup", [e |-> CHOOSE e \in Ev : pend[e]]) /\ UNCHANGED <<running, disarmed, pend, armCall, armRet, armInflight, delCall, broke>>
+            ELSE UNCHANGED <<running, disarmed, pend, armCall, armRet, armInflight, delCall, broke, skip, nbad>>
        [] ev.k = "End" ->
             IF ~broke /\ (\E e \in Ev : pend[e])
             THEN Bad("armed-event-never-ran", [e |-> CHOOSE e \in Ev : pend[e]]) /\ UNCHANGED <<running, disarmed, pend, armCall, armRet, armInflight, delCall, broke>>
